@@ -108,6 +108,28 @@ def strategy(tier):
         st.fixed_dictionaries({'op': st.just('close')}),
         st.fixed_dictionaries({'op': st.just('partial'), 'ns': nsi}),
     )
+    allok = {'op': 'connect', 'namespaces': None, 'auth': None,
+             'auth_callable': False, 'wait': True,
+             'answers': [{'a': 'ok'}] * 3, 'order': [0, 1, 2],
+             'chunks': [1], 'chf': None}
+    # two lives of one client object: what the first one leaves behind (a
+    # namespace ended by the server, possibly with a failing handler) must
+    # not change how the second one ends
+    two_lives = st.tuples(
+        st.lists(st.one_of(
+            st.fixed_dictionaries({'op': st.just('sdisc'), 'ns': nsi}),
+            st.fixed_dictionaries({'op': st.just('sdisc_overlap'),
+                                   'ns': nsi,
+                                   'how': st.sampled_from(['close',
+                                                           'lose'])}),
+            st.fixed_dictionaries({'op': st.just('emit'), 'ns': nsi,
+                                   'kind': st.just('emit'),
+                                   'data': st.just('d'),
+                                   'cb': st.just(True)})), max_size=3),
+        st.sampled_from(['lose', 'disconnect', 'close']),
+        st.sampled_from(['lose', 'disconnect', 'close'])).map(
+        lambda t: [dict(allok)] + t[0] + [{'op': t[1]}, dict(allok),
+                                          {'op': t[2]}])
     return st.fixed_dictionaries({
         'aio': st.booleans(),
         'style': st.sampled_from(['fn', 'class']),
@@ -118,7 +140,11 @@ def strategy(tier):
         # asyncio: the disconnect handlers do some asynchronous work (they
         # yield to the event loop a few times before they return)
         'disc_yields': st.booleans(),
-        'ops': st.lists(op, min_size=3, max_size=40 if big else 18)})
+        'ops': st.one_of(st.lists(op, min_size=3,
+                                  max_size=40 if big else 18),
+                         st.lists(op, min_size=3,
+                                  max_size=40 if big else 18),
+                         two_lives)})
 
 
 def check_case(case):
